@@ -728,6 +728,11 @@ func (self *LockCommandData) DecodeLockCommand(lockCommand *LockCommand) error {
 		if dataLen < 2 || len(self.Data) < valueOffset+dataLen+68 {
 			return errors.New("data size error")
 		}
+		if self.Data[valueOffset+69]&LOCK_DATA_FLAG_CONTAINS_PROPERTY != 0 {
+			if dataLen < 4 || (int(self.Data[valueOffset+70])|int(self.Data[valueOffset+71])<<8)+4 > dataLen {
+				return errors.New("data size error")
+			}
+		}
 		copy(buf[4:], self.Data[valueOffset+68:valueOffset+dataLen+68])
 		lockCommand.Data = NewLockCommandDataFromOriginBytes(buf)
 	}
